@@ -180,6 +180,23 @@ func runProperty(def *propDef, tier string, controls, verbose bool, reuse *Progr
 		}
 		fmt.Printf("KNOWN-FINDING: property=%s %s [%s @ %s]\n", def.ID, what, f.Key, f.Pos)
 	}
+	// listed findings this run did not come across: those the file marks as
+	// visible to the thorough tier only are listed all the same; any other is
+	// worth a remark (the defect may be gone: the entry would then be stale)
+	refound := map[string]bool{}
+	for _, f := range out.known {
+		refound[f.Key] = true
+	}
+	for _, k := range known.Known {
+		if k.Property != def.ID || refound[k.Key] {
+			continue
+		}
+		if k.Tier == "thorough" && tier != "thorough" {
+			fmt.Printf("KNOWN-FINDING: property=%s %s [%s] (listed; its rows are explored by the thorough tier only)\n", def.ID, k.What, k.Key)
+		} else {
+			fmt.Printf("  note: the listed finding %q was not reproduced by this run\n", k.Key)
+		}
+	}
 	for i, f := range out.violations {
 		fmt.Printf("  %s: %s: %s\n    key=%s\n", strings.ToUpper(f.Kind), f.Pos, f.Msg, f.Key)
 		if verbose && f.Detail != nil {
